@@ -282,6 +282,15 @@ def accumulators(P, rep, rule="DEP.max"):
             rep.ok(rule, "%s: thickness max over sections x segments x {0,1}; length max over sections of the per-section sum" % cls.split("::")[-1], F.loc, F.qn)
 
 
+# reads of the feature-wide bound that today's models make on purpose (confirmed by reading; count = number of reads)
+LOCAL_BOUND_EXCEPTIONS = {
+    ("OceanicPlateModels::Temperature::PlateModel::get_temperature", "max_depth"): (None, "the plate thickness L of the plate model is the feature-wide maximum depth"),
+    ("OceanicPlateModels::Temperature::PlateModel::get_temperature", "min_depth"): (1, "the ridge distance is taken at the feature-wide top"),
+    ("OceanicPlateModels::Temperature::PlateModelConstantAge::get_temperature", "max_depth"): (None, "the plate thickness L of the plate model is the feature-wide maximum depth"),
+    ("OceanicPlateModels::Temperature::HalfSpaceModel::get_temperature", "min_depth"): (1, "the ridge distance is taken at the feature-wide top"),
+}
+
+
 def surface_pairing(P, rep, rule="DEP.surfaces"):
     """min_depth <- min_depth_surface.minimum, max_depth <- max_depth_surface.maximum;
     X_depth_local = X_depth_surface.constant_value ? X_depth : X_depth_surface.local_value(...)"""
@@ -344,6 +353,50 @@ def surface_pairing(P, rep, rule="DEP.surfaces"):
                                           "the local depth of one side is taken from the other side's surface or constant", key="%s|%s|%s" % (rule, F.qn, x.get("n")),
                                           witness="constant min depth with a max depth given as values at points (or vice versa)")
     rep.floor(rule, n, 150, "depth-surface pairings")
+    # once the local bound exists, the constant bound is not used any more
+    rule2 = rule + ".local"
+    rep.rule(rule2, "in a function that defines X_local = S.constant_value ? X : S.local_value(...), the constant bound X (the extreme of "
+                    "the whole surface) is read only in that definition and in the enclosing pre-test `depth <= max_depth && depth >= "
+                    "min_depth`; everything computed afterwards uses the local bound, so the value at a point depends on the depth "
+                    "listed there and not on the extreme over all listed points")
+    m = 0
+    for F in P.funcs.values():
+        if F.body is None or not F.qn.startswith("WorldBuilder::Features::"):
+            continue
+        locs = []
+        for x in F.walk():
+            if x.get("k") == "VarDecl" and x.get("c") and sc(x["c"][0]).get("k") == "ConditionalOperator":
+                c, a, b = [sc(z) for z in sc(x["c"][0])["c"]]
+                if c.get("k") == "MemberExpr" and c.get("n") == "constant_value" and a.get("k") == "MemberExpr" and astq.is_this_field(P, a):
+                    locs.append((x, a))
+        for x, a in locs:
+            m += 1
+            allowed = {y["i"] for y in F.walk(x)}
+            for anc in F.ancestors(x):
+                if anc.get("k") == "IfStmt":
+                    allowed |= {y["i"] for y in F.walk(anc["c"][0])}
+            # a comparison against the bound in any if-condition is a (possibly redundant) range test, not a use of its value
+            for st in F.walk():
+                if st.get("k") == "IfStmt":
+                    for cmpn in F.walk(st["c"][0]):
+                        if cmpn.get("k") == "BinaryOperator" and cmpn.get("op") in ("<", "<=", ">", ">="):
+                            allowed |= {y["i"] for y in F.walk(cmpn)}
+            bad = [y for y in F.walk() if y.get("k") == "MemberExpr" and y.get("r") == a["r"] and astq.is_this_field(P, y) and y["i"] not in allowed]
+            exc = LOCAL_BOUND_EXCEPTIONS.get((F.qn.split("Features::")[-1], a.get("n")))
+            if exc is not None and (exc[0] is None or len(bad) <= exc[0]):
+                rep.ok(rule2, "%s: %d use(s) of %s kept by design (%s)" % (F.qn.split("Features::")[-1], len(bad), a.get("n"), exc[1]), F.nloc(x), F.qn)
+                continue
+            # reads of the bound that precede the definition in an earlier, already finished statement are pre-tests too
+            bad = [y for y in bad if (y.get("l") or 0) >= (x.get("l") or 0) or any(z is y for z in F.walk(astq.enclosing(F, x, ("CompoundStmt",)) or x))]
+            if bad:
+                y = bad[0]
+                rep.violation(rule2, "%s reads the constant bound %s although %s is defined" % (F.qn, a.get("n"), x.get("n")), F.nloc(y), F.qn,
+                              norm.render(P, astq.enclosing(F, y, ("VarDecl", "BinaryOperator", "CallExpr", "CXXMemberCallExpr", "ReturnStmt")) or y)[:140],
+                              "the value is computed from the extreme of the depth surface instead of its value at the point",
+                              key="%s|%s|%s" % (rule2, F.qn, a.get("n")), witness="a %s given as values at points, queried away from its extreme" % a.get("n", "").replace("_", " "))
+            else:
+                rep.ok(rule2, "%s: %s only in the pre-test and in the definition of %s" % (F.qn.split("Features::")[-1], a.get("n"), x.get("n")), F.nloc(x), F.qn)
+    rep.floor(rule2, m, 60, "local depth definitions")
 
 
 def surface_fallback(P, rep, rule="G3.surface"):
